@@ -12,6 +12,8 @@ Definition once_mo_ok (P : params) : bool := is_rel (mo_once_store P) && is_acq 
 (* what each thread knows at each program point *)
 Definition thr_ok (s : osys) (x : othread) : Prop :=
   (o_seen x <= o_dver s)%nat /\
+  (* a thread that has completed a call keeps what it learnt, also while it calls again *)
+  ((0 < o_rets x)%nat -> o_flag s = 2 /\ o_seen x = 1%nat) /\
   match o_pc x with
   | CStart | CCas => True
   | CFunc1 => o_flag s = 1 /\ o_runs s = 0%nat /\ o_done s = 0 /\ o_dver s = 0%nat
@@ -37,10 +39,10 @@ Ltac o_upd := simpl in *; repeat (match goal with
   | |- context [upd _ ?t _ ?a] => unfold upd; destruct (Nat.eqb_spec a t); subst
   end; simpl in * ).
 
-Lemma oinit_inv n : OInv (oinit n).
+Lemma oinit_inv n calls : OInv (oinit n calls).
 Proof.
   constructor; simpl; [auto | auto | discriminate | lia | auto | lia | discriminate | ].
-  intros t. unfold thr_ok; simpl. split; [lia|exact I].
+  intros t. unfold thr_ok; simpl. split; [lia|split; [lia|exact I]].
 Qed.
 
 Ltac o_arith := simpl in *; intros; try discriminate; first [ lia | intuition lia ].
@@ -67,7 +69,7 @@ Proof.
   unfold ostep in Hs. destruct (Nat.leb (o_n s) t); [discriminate|].
   pose proof (Hthr t) as Kt. unfold thr_ok in Kt.
   destruct (o_pc (o_thr s t)) eqn:Epc; pose proof (f_equal runner Epc) as Rt; simpl in Rt, Kt;
-    destruct Kt as [St Kt].
+    destruct Kt as [St [Rk Kt]].
   - (* CStart *)
     inversion Hs; subst; clear Hs.
     constructor; simpl; [o_arith|o_arith|o_arith|o_arith|o_arith|o_arith|o_one Hone|o_thr Hone Hthr t].
@@ -109,40 +111,42 @@ Proof.
   - (* CRetSeg: the caller returns having seen the body's effect *)
     destruct Kt as [F2 S1]. destruct (Hg2 F2) as (Ar & Ad & Av & As).
     rewrite Ad, S1, Av in Hs. simpl in Hs.
-    inversion Hs; subst; clear Hs.
-    constructor; simpl; [o_arith|o_arith|o_arith|o_arith|o_arith|o_arith|o_one Hone|o_thr Hone Hthr t].
+    destruct (o_calls (o_thr s t)) eqn:Ecalls; inversion Hs; subst; clear Hs;
+    (constructor; simpl; [o_arith|o_arith|o_arith|o_arith|o_arith|o_arith|o_one Hone|o_thr Hone Hthr t]).
   - (* CFin *)
     inversion Hs; subst; clear Hs.
     constructor; simpl; [o_arith|o_arith|o_arith|o_arith|o_arith|o_arith|o_one Hone|o_thr Hone Hthr t].
   - discriminate.
 Qed.
 
-Theorem once_invariants P n sched : once_mo_ok P = true ->
-  OInv (exec osys (ostep P) (oinit n) sched).
+Theorem once_invariants P n calls sched : once_mo_ok P = true ->
+  OInv (exec osys (ostep P) (oinit n calls) sched).
 Proof. intros H. apply inv_exec; [|apply oinit_inv]. intros; eapply ostep_inv; eauto. Qed.
 
 (* the function body starts at most once, whatever the schedule and number of racers *)
-Corollary once_at_most_once P n sched : once_mo_ok P = true ->
-  (o_runs (exec osys (ostep P) (oinit n) sched) <= 1)%nat.
-Proof. intros H. apply (oi_runs _ (once_invariants P n sched H)). Qed.
+Corollary once_at_most_once P n calls sched : once_mo_ok P = true ->
+  (o_runs (exec osys (ostep P) (oinit n calls) sched) <= 1)%nat.
+Proof. intros H. apply (oi_runs _ (once_invariants P n calls sched H)). Qed.
 
 (* a caller that has returned (or is returning) finds the run completed and its write visible *)
-Corollary once_no_early_return P n sched t : once_mo_ok P = true ->
-  let s := exec osys (ostep P) (oinit n) sched in
-  returned (o_pc (o_thr s t)) = true ->
+Corollary once_no_early_return P n calls sched t : once_mo_ok P = true ->
+  let s := exec osys (ostep P) (oinit n calls) sched in
+  returned (o_pc (o_thr s t)) = true \/ (0 < o_rets (o_thr s t))%nat ->
   o_runs s = 1%nat /\ o_done s = 1 /\ o_seen (o_thr s t) = o_dver s /\ o_early s = 0%nat.
 Proof.
-  intros H s Hr. pose proof (once_invariants P n sched H) as I. fold s in I.
-  pose proof (oi_thr _ I t) as K. unfold thr_ok in K.
-  destruct (o_pc (o_thr s t)); simpl in Hr; try discriminate;
-    destruct K as [_ [F2 S1]]; destruct (oi_g2 _ I F2) as (A & B & C & D);
-    repeat split; auto; try lia; apply (oi_early _ I).
+  intros H s Hr. pose proof (once_invariants P n calls sched H) as I. fold s in I.
+  pose proof (oi_thr _ I t) as K. unfold thr_ok in K. destruct K as [_ [Kr K]].
+  assert (F : o_flag s = 2 /\ o_seen (o_thr s t) = 1%nat).
+  { destruct Hr as [Hr|Hr]; [|exact (Kr Hr)].
+    destruct (o_pc (o_thr s t)); simpl in Hr; try discriminate; exact K. }
+  destruct F as [F2 S1]. destruct (oi_g2 _ I F2) as (A & B & C & D).
+  repeat split; auto; try lia; apply (oi_early _ I).
 Qed.
 
 Example once_nonvacuous :
   let P := {| mo_spin_tas := Acq; mo_spin_clear := Rel; mo_sync_cas := Acq; mo_sync_store := Rel;
               mo_once_cas := Rlx; mo_once_store := Rel; mo_once_load := Acq; mo_ref_cas := Rlx |} in
-  let s := exec osys (ostep P) (oinit 2)
+  let s := exec osys (ostep P) (oinit 2 1)
     [(0,0);(0,0);(1,0);(1,0);(0,0);(0,0);(0,0);(0,0);(1,0);(1,0);(1,0)]%nat in
   returned (o_pc (o_thr s 1%nat)) = true /\ returned (o_pc (o_thr s 0%nat)) = true /\ o_runs s = 1%nat.
 Proof. vm_compute. repeat split; reflexivity. Qed.
@@ -152,6 +156,17 @@ Proof. vm_compute. repeat split; reflexivity. Qed.
 Example once_mo_necessary :
   let P := {| mo_spin_tas := Acq; mo_spin_clear := Rel; mo_sync_cas := Acq; mo_sync_store := Rel;
               mo_once_cas := Rlx; mo_once_store := Rlx; mo_once_load := Acq; mo_ref_cas := Rlx |} in
-  o_early (exec osys (ostep P) (oinit 2)
+  o_early (exec osys (ostep P) (oinit 2 1)
     [(0,0);(0,0);(1,0);(1,0);(0,0);(0,0);(0,0);(0,0);(1,0);(1,0);(1,0)]%nat) = 1%nat.
 Proof. vm_compute. reflexivity. Qed.
+
+(* a thread that calls again after READY: the second call fails the compare-exchange, loads READY and returns;
+   the body still ran once and both returns saw its effect *)
+Example once_second_call_nonvacuous :
+  let P := {| mo_spin_tas := Acq; mo_spin_clear := Rel; mo_sync_cas := Acq; mo_sync_store := Rel;
+              mo_once_cas := Rlx; mo_once_store := Rel; mo_once_load := Acq; mo_ref_cas := Rlx |} in
+  let s := exec osys (ostep P) (oinit 2 2)
+    [(0,0);(0,0);(0,0);(0,0);(0,0);(0,0);(0,0);(0,0);(0,0);(0,0);(0,0);(1,0);(1,0);(1,0);(1,0);(1,0)]%nat in
+  o_rets (o_thr s 0%nat) = 2%nat /\ o_pc (o_thr s 0%nat) = CFin /\ o_rets (o_thr s 1%nat) = 1%nat /\
+  o_pc (o_thr s 1%nat) = CCas /\ o_runs s = 1%nat /\ o_early s = 0%nat.
+Proof. vm_compute. repeat split; reflexivity. Qed.
